@@ -11,8 +11,25 @@ static std::vector<double> scaled(double dim, std::vector<double> v)
 			x *= dim;
 	return v;
 }
-static void queries1(vh::Reader& r, vh::Out& o, const Interpolation& base, const std::vector<double>& xs)
+// fresh = true : every call on a copy of the untouched object (case types t1, tr)
+// fresh = false: every call on ONE live object, so the cached index / search-method switch of Locate sees the whole
+//                sequence of queries (case type h1); the model is always the fresh-object semantics.
+static void queries1(vh::Reader& r, vh::Out& o, const Interpolation& base_in, const std::vector<double>& xs, bool fresh = true)
 {
+	Interpolation live = base_in;
+	struct Pick
+	{
+		const Interpolation& b;
+		Interpolation& l;
+		bool fresh;
+		operator Interpolation&()
+		{
+			if(fresh)
+				l = b;
+			return l;
+		}
+	};
+	Pick base{base_in, live, fresh};
 	long nq = r.integer();
 	for(long q = 0; q < nq; q++)
 	{
@@ -20,20 +37,20 @@ static void queries1(vh::Reader& r, vh::Out& o, const Interpolation& base, const
 		if(op == "I")
 		{
 			double x		= r.num();
-			Interpolation f = base;
+			Interpolation& f = base;
 			o.f(f.Interpolate(x));
 		}
 		else if(op == "D")
 		{
 			long k			= r.integer();
 			double x		= r.num();
-			Interpolation f = base;
+			Interpolation& f = base;
 			o.f(f.Derivative(x, (unsigned int) k));
 		}
 		else if(op == "L")
 		{
 			double x		= r.num();
-			Interpolation f = base;
+			Interpolation& f = base;
 			o.i(f.Locate(x));
 		}
 		else if(op == "G")
@@ -43,9 +60,39 @@ static void queries1(vh::Reader& r, vh::Out& o, const Interpolation& base, const
 			for(long k = 0; k <= m; k++)
 			{
 				double x		= (k == m) ? x1 : x0 + (x1 - x0) * double(k) / double(m);
-				Interpolation f = base;
+				Interpolation& f = base;
 				o.f(f(x));
 			}
+		}
+		else if(op == "K")
+		{
+			double x	  = r.num();
+			double pts[3] = {std::nextafter(x, -INFINITY), x, std::nextafter(x, INFINITY)};
+			for(double p : pts)
+			{
+				Interpolation& f = base;
+				o.f(f.Interpolate(p));
+			}
+			for(double p : pts)
+			{
+				Interpolation& f = base;
+				o.f(f.Derivative(p, 1));
+			}
+		}
+		else if(op == "F")
+		{
+			double x = r.num(), d = r.num();
+			double pts[3] = {x - d, x, x + d};
+			for(unsigned int k = 0; k <= 2; k++)
+				for(double p : pts)
+				{
+					Interpolation& f = base;
+					o.f(f.Derivative(p, k));
+				}
+			Interpolation& f3 = base;
+			o.f(f3.Derivative(x, 3));
+			Interpolation& f4 = base;
+			o.f(f4.Derivative(x, 4));
 		}
 		else
 		{
@@ -57,12 +104,12 @@ static void queries1(vh::Reader& r, vh::Out& o, const Interpolation& base, const
 static void handler(vh::Reader& r, vh::Out& o)
 {
 	std::string op = r.word();
-	if(op == "t1")
+	if(op == "t1" || op == "h1")
 	{
 		double xd = r.num(), fd = r.num();
 		std::vector<double> xs = r.list(), ys = r.list();
 		Interpolation base(xs, ys, xd, fd);
-		queries1(r, o, base, scaled(xd, xs));
+		queries1(r, o, base, scaled(xd, xs), op == "t1");
 	}
 	else if(op == "tr")
 	{
